@@ -14,6 +14,7 @@ import (
 
 	"github.com/99designs/gqlgen/graphql"
 	"github.com/99designs/gqlgen/graphql/handler/extension"
+	"github.com/99designs/gqlgen/graphql/handler/lru"
 	"github.com/99designs/gqlgen/graphql/handler/transport"
 	"github.com/99designs/gqlgen/zzsym"
 )
@@ -27,8 +28,12 @@ func (c *c15Store) Get(ctx context.Context, k string) (string, bool) { v, ok := 
 func (c *c15Store) Add(ctx context.Context, k string, v string)      { c.m[k] = v }
 
 // two unrelated texts, and two that differ only in white space inside a string literal
-var c15Texts = []string{`query T0 { me { name } }`, `query T1 { me { id } }`, `query T2 { user(id: "a b") { name } }`, `query T2 { user(id: "a  b") { name } }`}
-var c15Execs = []string{"query:T0", "query:T1", "query:T2(a b)", "query:T2(a  b)"}
+var c15Texts = []string{`query T0 { me { name } }`, `query T1 { me { id } }`, `query T2 { user(id: "a b") { name } }`, `query T2 { user(id: "a  b") { name } }`,
+	`query t0 { me { name } }`, `query T3 { user(id: "K") { name } }`, `query T3 { user(id: "k") { name } }`, `query T1 { me { id  } }`} // the last four: letter case / white space twins
+var c15Execs = []string{"query:T0", "query:T1", "query:T2(a b)", "query:T2(a  b)", "query:t0", "query:T3(K)", "query:T3(k)", "query:T1"}
+
+// c15Other: a different text whose hash a request may (wrongly) carry: the twin where there is one
+var c15Other = []int{4, 7, 3, 2, 0, 6, 5, 1}
 
 func c15Sum(s string) string {
 	h := sha256.Sum256([]byte(s))
@@ -55,15 +60,18 @@ func Harness_C15_server() {
 	srv.AddTransport(transport.GET{})
 	srv.AddTransport(transport.POST{})
 	srv.Use(extension.AutomaticPersistedQuery{Cache: store})
-	if zzsym.Choice("doccache", 2) == 1 {
+	switch zzsym.Choice("doccache", 3) {
+	case 1:
 		srv.SetQueryCache(graphql.MapCache[*ast.QueryDocument]{})
+	case 2:
+		srv.SetQueryCache(lru.New[*ast.QueryDocument](100)) // what NewDefaultServer installs
 	}
 	model := map[string]string{}
 	n := zzsym.Param("hist", 2)
 	for step := 0; step < n; step++ {
 		kind := zzsym.Choice("kind", 7)
-		ti := zzsym.Choice("text", len(c15Texts))
-		text, other := c15Texts[ti], c15Texts[ti^1]
+		ti := zzsym.Choice("text", zzsym.Param("texts", len(c15Texts)))
+		text, other := c15Texts[ti], c15Texts[c15Other[ti]]
 		q, _ := json.Marshal(text)
 		var r *http.Request
 		post := func(body string) {
